@@ -26,6 +26,25 @@ theorem C03_inv :
   have h := reset_regs r
   exact ⟨congrArg (·.pc_q) h, congrArg (·.areg_q) h, congrArg (·.breg_q) h, congrArg (·.oreg_q) h⟩
 
+/-- **C03, "started from reset on the same memory image".**  A reset event (rising `i_rst`, or a
+    rising clock while `i_rst` is high) writes nothing: the memory after reset is the memory
+    before it, for every state and every byte the processor happens to be looking at.  (Holds
+    since memory.sv qualifies its write enable with `!i_rst`; on the earlier tree a STAM/STAI under
+    reset stored.)  With `C03_inv` the state after reset abstracts to the ISA's start state
+    `pc = areg = breg = oreg = 0` on the same image. -/
+theorem C03_reset_mem (r : RtlSt) :
+    (resetEdge r).mem = r.mem ∧
+    abs (resetEdge r) = { pc := 0#32, a := 0#32, b := 0#32, o := 0#32, mem := (abs r).mem } := by
+  have hm := reset_mem r
+  have h := reset_regs r
+  refine ⟨hm, ?_⟩
+  have h1 : (resetEdge r).pc = 0#21 := congrArg (·.pc_q) h
+  have h2 : (resetEdge r).areg = 0#32 := congrArg (·.areg_q) h
+  have h3 : (resetEdge r).breg = 0#32 := congrArg (·.breg_q) h
+  have h4 : (resetEdge r).oreg = 0#32 := congrArg (·.oreg_q) h
+  simp only [abs, h1, h2, h3, h4, hm]
+  rfl
+
 /-- **C03, one clock = one instruction.**  For every state of the flattened design whose `oreg`
     is aligned (all reachable states, `C03_inv`), whose fetched byte is defined in the ISA and is
     not SVC, and which is in range (`InRange`: fetch address, taken branch targets and the LDAP
